@@ -52,6 +52,10 @@ where
     #[cfg(zinoma_verif)]
     crate::verif::point(&target.id, crate::verif::points::DELETED).await;
 
+    // The recorded input state must be the one the script is about to read: a file changed while
+    // the script runs has not been built yet, and must make the next run execute again.
+    let input_state = TargetEnvState::current_input(target_input).await;
+
     let build_report = future.await?;
 
     match build_report {
@@ -60,7 +64,7 @@ where
             #[cfg(zinoma_verif)]
             crate::verif::point(&target.id, crate::verif::points::SCRIPT_DONE).await;
 
-            match TargetEnvState::current(target_input, target_output).await {
+            match TargetEnvState::with_current_output(input_state, target_output).await {
                 Ok(Some(env_state)) => {
                     #[cfg(zinoma_verif)]
                     crate::verif::point(&target.id, crate::verif::points::STATE_COMPUTED).await;
@@ -110,20 +114,30 @@ pub struct TargetEnvState {
 }
 
 impl TargetEnvState {
-    pub async fn current(
-        target_input: &Resources,
-        target_output: Option<&Resources>,
-    ) -> Result<Option<Self>> {
+    /// State of the inputs, or `None` if the target has no input (its state is then never saved).
+    async fn current_input(target_input: &Resources) -> Result<Option<ResourcesState>> {
         if target_input.is_empty() {
             Ok(None)
         } else {
-            let input = ResourcesState::current(target_input).await?;
-            let output = match target_output {
-                Some(target_output) => Some(ResourcesState::current(target_output).await?),
-                None => None,
-            };
+            Ok(Some(ResourcesState::current(target_input).await?))
+        }
+    }
 
-            Ok(Some(TargetEnvState { input, output }))
+    /// Combines an input state captured earlier with the current state of the outputs.
+    async fn with_current_output(
+        input_state: Result<Option<ResourcesState>>,
+        target_output: Option<&Resources>,
+    ) -> Result<Option<Self>> {
+        match input_state? {
+            None => Ok(None),
+            Some(input) => {
+                let output = match target_output {
+                    Some(target_output) => Some(ResourcesState::current(target_output).await?),
+                    None => None,
+                };
+
+                Ok(Some(TargetEnvState { input, output }))
+            }
         }
     }
 
